@@ -152,3 +152,13 @@ def _k5(pid, facet, spec, label):
     return _c13(pid, facet, spec) and any(
         b.get("g") == "C" and b["a"][0]["g"] == "Y"
         for b, _ in spec["d"]["layers"])
+
+
+@matcher("scalar-grad-ignores-mixed")
+def _scalar_grad(pid, facet, spec, label):
+    from harness.props import c14
+    if pid != "C15" or facet != "circuits" or not spec.get("mixed"):
+        return False
+    return any(b.get("g") == "scalar" and isinstance(b["a"][0], str)
+               and spec["var"] in c14.expr_symbols(b["a"][0])
+               for b, _ in spec["d"]["layers"])
